@@ -54,6 +54,7 @@ CHECKS = {
 
 # wall-clock budget per shard (seconds): running out means "inconclusive", never a violation
 BUDGET = {"quick": 75.0, "thorough": 900.0}
+WALL_FACTOR = 3.0
 SHRINK_BUDGET = {"quick": 25.0, "thorough": 120.0}
 CASE_WATCHDOG = 20
 
@@ -125,6 +126,7 @@ class Ctx:
         self.prop, self.module, self.tier, self.seed = prop, module, tier, seed
         self.shard, self.nshards = shard, nshards
         self.t0 = time.monotonic()
+        self.cpu0 = time.process_time()
         self.budget = float(os.environ.get("VERIF_BUDGET", BUDGET[tier]))
         self.evaluations = 0
         self.nt_hashes: set[int] = set()
@@ -148,7 +150,10 @@ class Ctx:
         return int.from_bytes(h.digest(), "big")
 
     def expired(self) -> bool:
-        if time.monotonic() - self.t0 > self.budget:
+        """The budget is counted in CPU seconds of this worker, so that what a campaign covers does not
+        depend on how busy the machine is; wall-clock time is capped at WALL_FACTOR x the budget (checks
+        that mostly sleep - real event loops, ptys - and an overloaded machine)."""
+        if time.process_time() - self.cpu0 > self.budget or time.monotonic() - self.t0 > WALL_FACTOR * self.budget:
             self.inconclusive = True
             return True
         return False
@@ -481,7 +486,7 @@ def parent_main(prop, tier, seed, replay=None, shards=None):
         log = open(os.path.join(work, f"shard{i}.log"), "w")
         procs.append((i, out, subprocess.Popen(cmd, env=env_i, stdout=log, stderr=subprocess.STDOUT, cwd=ROOT), log))
     results, harness_errors = [], []
-    hard_limit = BUDGET[tier] * 2 + 120
+    hard_limit = BUDGET[tier] * WALL_FACTOR + 180
     for i, out, p, log in procs:
         try:
             rc = p.wait(timeout=max(5.0, hard_limit - (time.monotonic() - t0)))
@@ -578,8 +583,11 @@ def parent_main(prop, tier, seed, replay=None, shards=None):
         "wall_s": round(wall, 2),
         "violations": len(violations),
     }
-    os.makedirs(os.path.join(ROOT, "evidence"), exist_ok=True)
-    with open(os.path.join(ROOT, "evidence", f"{prop}.json"), "w") as f:
+    # VERIF_EVIDENCE_DIR: used by tools_seed.py / selftest so that runs against a deliberately broken
+    # tree never overwrite the evidence of the real tree
+    evdir = os.environ.get("VERIF_EVIDENCE_DIR") or os.path.join(ROOT, "evidence")
+    os.makedirs(evdir, exist_ok=True)
+    with open(os.path.join(evdir, f"{prop}.json"), "w") as f:
         json.dump(evidence, f, indent=1, default=repr)
         f.write("\n")
 
